@@ -26,6 +26,7 @@ type Harness struct {
 	Props  []string
 	Pkg    string
 	Doc    string
+	Timeout time.Duration
 }
 
 type World struct {
@@ -109,6 +110,11 @@ func loadWorld(patterns []string, goarch string) (*World, error) {
 						t := strings.TrimSpace(strings.TrimPrefix(c.Text, "//"))
 						if strings.HasPrefix(t, "verif:props") {
 							h.Props = strings.Fields(strings.TrimPrefix(t, "verif:props"))
+						}
+						if strings.HasPrefix(t, "verif:timeout") {
+							if d, err := time.ParseDuration(strings.TrimSpace(strings.TrimPrefix(t, "verif:timeout"))); err == nil {
+								h.Timeout = d
+							}
 						}
 					}
 				}
@@ -322,7 +328,11 @@ func cmdRun(args []string) {
 			continue
 		}
 		res := w.runHarness(h)
-		solveAll(res, *timeout, true)
+		to := *timeout
+		if h.Timeout > to {
+			to = h.Timeout
+		}
+		solveAll(res, to, true)
 		nd := 0
 		for i := range res.Obls {
 			if isDischarged(res.Obls[i], res.Verdicts[i]) {
